@@ -7,6 +7,7 @@ records, exceptions -> families).
 """
 import codecs
 import json
+import re
 
 ARITH = {
     'utf-8': 'utf-8', 'utf-8-sig': 'utf-8-sig',
@@ -107,6 +108,22 @@ class Catalog(object):
         return out
 
 
+_CANON_FLOAT = re.compile(r'^-?(0|[1-9][0-9]*)\.([0-9]+)$')
+
+
+def canonical_float(r):
+    """The decimal fractions JsonParse.tla models: shortest round-trip form, at most 15 significant digits."""
+    m = _CANON_FLOAT.match(r)
+    if not m:
+        return False
+    ip, fp = m.group(1), m.group(2)
+    if len(ip) + len(fp) > 15 or (fp.endswith('0') and fp != '0'):
+        return False
+    if ip == '0' and fp != '0' and len(fp) - len(fp.lstrip('0')) >= 4:
+        return False
+    return True
+
+
 def jabs(v):
     """Abstract JSON value [t, s, n, neg, items]; object members in key order."""
     z = {'t': '', 's': [], 'n': 0, 'neg': False, 'items': []}
@@ -123,6 +140,13 @@ def jabs(v):
             z['t'] = 'int'
             z['n'] = abs(v)
             z['neg'] = v < 0
+    elif isinstance(v, float):
+        r = repr(v)
+        if canonical_float(r):
+            z['t'] = 'float'
+            z['s'] = cps(r)
+        else:
+            z['t'] = 'other:float'
     elif isinstance(v, str):
         z['t'] = 'str'
         z['s'] = cps(v)
@@ -151,6 +175,8 @@ def jconc(z):
         return False
     if t == 'int':
         return -z['n'] if z['neg'] else z['n']
+    if t == 'float':
+        return float(''.join(chr(c) for c in z['s']))
     if t == 'str':
         return ''.join(chr(c) for c in z['s'])
     if t == 'arr':
